@@ -237,7 +237,13 @@ func ValidJSONPatch(p map[string]any) bool {
 		return false
 	}
 	protected := func(ptr string) bool {
-		return len(ptr) >= len("/service") && ptr[:len("/service")] == "/service" || len(ptr) >= len("/publicKey") && ptr[:len("/publicKey")] == "/publicKey"
+		// the member itself or something inside it - not another member whose name merely begins the same way ("/services", "/publicKeys")
+		for _, m := range []string{"/service", "/publicKey"} {
+			if ptr == m || len(ptr) > len(m) && ptr[:len(m)+1] == m+"/" {
+				return true
+			}
+		}
+		return false
 	}
 	for _, e := range l {
 		o, ok := e.(map[string]any)
